@@ -281,6 +281,9 @@ type Fault struct {
 	WriteGate     chan struct{}
 	WriteParked   chan struct{} // closed when the failing write has parked
 	WriteFailOnce bool          // only the WriteFailAt-th write fails; later writes pass
+	// WritePassAfterGate: the WriteFailAt-th write only parks at the gate; once the gate is
+	// closed it is passed on whole and succeeds (a stall, not a failure)
+	WritePassAfterGate bool
 
 	mu       sync.Mutex
 	inBytes  int
@@ -362,6 +365,9 @@ func (f *Fault) Write(p []byte) (int, error) {
 				f.parkOnce.Do(func() { close(f.WriteParked) })
 			}
 			<-gate
+		}
+		if f.WritePassAfterGate {
+			return f.Conn.Write(p)
 		}
 		n := 0
 		if f.WritePartial > 0 {
